@@ -127,6 +127,13 @@ func expand(reg *registry.Registry, t *Transaction, accrual *syntax.Accrual) ([]
 	if err != nil {
 		return nil, err
 	}
+	if start.IsZero() {
+		// date.NewPartition refuses a zero start date.
+		return nil, syntax.Error{
+			Message: "invalid start date of the accrual period",
+			Range:   accrual.Start.Range,
+		}
+	}
 	interval, err := date.ParseInterval(accrual.Interval.Extract())
 	if err != nil {
 		return nil, syntax.Error{
